@@ -5,7 +5,7 @@
 set -u
 W=$(mktemp -d /tmp/ruint_benign_XXXXXX); rmdir "$W"
 git -C /repo worktree add --detach "$W" HEAD -q || exit 2
-trap 'git -C /repo worktree remove --force "$W" >/dev/null 2>&1; rm -rf "$W" /tmp/try_ev_benign' EXIT
+trap 'git -C /repo worktree remove --force "$W" >/dev/null 2>&1; rm -rf "$W" "$W.ev"' EXIT
 rc=0
 [ $# -eq 0 ] && set -- $(ls /verif/benign)
 for id in "$@"; do
@@ -15,7 +15,7 @@ for id in "$@"; do
     if ! git -C "$W" apply "$P" 2>/dev/null; then echo "== $id/$k: does not apply to HEAD (skipped)"; continue; fi
     out=""
     for p in C01 C02 C03 C04 C05 C06 C07 C08 C09 C10 C13 C16 C17 C18 C19 C20; do
-      r=$(VERIF_REPO=$W VERIF_EVIDENCE_DIR=/tmp/try_ev_benign /verif/check $p --tier quick 2>&1 | grep -E "^  R-|checker error|Traceback" | cut -c1-300)
+      r=$(VERIF_REPO=$W VERIF_EVIDENCE_DIR="$W.ev" /verif/check $p --tier quick 2>&1 | grep -E "^  R-|checker error|Traceback" | cut -c1-300)
       [ -n "$r" ] && out="$out
 [$p] $r"
     done
